@@ -159,7 +159,10 @@ impl WriteSource for pr::ExprKind {
                 r += opt.consume(&name)?;
                 opt.unbound_expr = true;
 
-                for (name, arg) in &func_call.named_args {
+                // sorted by name, since the iteration order of the map differs from call to call
+                let mut named_args: Vec<_> = func_call.named_args.iter().collect();
+                named_args.sort_by(|a, b| a.0.cmp(b.0));
+                for (name, arg) in named_args {
                     r += opt.consume(" ")?;
 
                     r += opt.consume(name)?;
